@@ -153,6 +153,11 @@ def gen_sacct(rng, ids, pool, malformed):
             jid = rng.choice(pool)
         elif r < 0.9 and ids:
             jid = rng.choice(ids) + rng.choice([".batch", ".extern", ".0"])
+            if rng.random() < 0.3:
+                # a task of a job array whose id, read without the underscore, is a job Maestro asked about
+                t = rng.choice(ids)
+                if len(t) > 1:
+                    jid = t[:-1] + "_" + t[-1]
         else:
             rows.append("")
             continue
